@@ -332,7 +332,8 @@ func (t *Dense) RollAxis(axis, start int, safe bool) (retVal *Dense, err error) 
 		start--
 	}
 
-	if axis == start {
+	if axis == start && !safe {
+		// nothing to roll. (A safe call goes on: SafeT with the identity axes makes the copy it has to hand out.)
 		retVal = t
 		return
 	}
